@@ -443,7 +443,7 @@ func init() {
 		ID: "C16", Engine: "server",
 		Generate: genC16, Decode: decodeC16, Execute: execC16,
 		Config: func(any) simrt.Config {
-			return simrt.Config{MaxSteps: 200000, IdleProbe: 4 * time.Second, ClockJumpPM: 10}
+			return simrt.Config{MaxSteps: 60000, IdleProbe: 4 * time.Second, ClockJumpPM: 10}
 		},
 		Runs: clientRuns(150000, 8000000),
 		Floors: []Floor{
